@@ -215,7 +215,6 @@ class Emitter(object):
             if len(items) == 1 and items[0][0] == "lst":
                 rhs = self.nav(items[0][1])
             elif len(items) == 1 and items[0][0] == "rl":
-                rhs = getattr(self.obj, items[0][1]) if not isinstance(self.obj, _ItProxy) else None
                 rhs = object.__getattribute__(self.obj, items[0][1])
             else:
                 rhs = vsc.rangelist(*[self.item(it) for it in items])
@@ -238,6 +237,11 @@ class Emitter(object):
             return getattr(self.fe[e[2] if len(e) > 2 else -1][0], e[1])
         if k == "idx":
             return self.fe[e[1] if len(e) > 1 else -1][1]
+        if k == "el":
+            l = self.nav(e[1])
+            i = self.expr(e[2])
+            x = l[i]
+            return getattr(x, e[3]) if (len(e) > 3 and e[3]) else x
         if k == "dyn":
             o = self.nav(e[1])
             return getattr(o, e[2])()
@@ -359,6 +363,8 @@ def src_expr(e, me="self"):
         return "it.%s" % e[1]
     if k == "idx":
         return "i"
+    if k == "el":
+        return "%s%s[%s]%s" % (me, _src_path(e[1]), src_expr(e[2], me), ("." + e[3]) if (len(e) > 3 and e[3]) else "")
     if k == "dyn":
         return "%s%s.%s()" % (me, _src_path(e[1]), e[2])
     return repr(e)
